@@ -1,9 +1,675 @@
-//! group `framing` — stub (not built yet).
+//! group `framing` (C30) — real loopback sockets against BOTH I/O providers of the repository
+//! under test (`quandary::io::BlockingIoProvider` in several worker configurations and
+//! `quandary::io::TokioIoProvider`), random request batches (valid, malformed, response-less),
+//! random segmentation and small delays (milliseconds; the providers' read timeout is 5 s).
+//!
+//! case lines (see lean/QV/Driver/Framing.lean):
+//!   tcp <provider> <mode> <segments> <table>      one TCP conversation
+//!   udp <provider> <payload> <datagram> <resp|~>  one datagram
+//! The table / expected response is the real `Server::handle_message` applied to each request
+//! alone; it is the `handler` of the Lean model and spec.  The implementation column is what the
+//! client socket received.
+//!
+//! Robustness: ports are probed free and the bind is retried; the listening sockets exist before
+//! `bind` returns, so a connect cannot be refused; every wait has a generous bound (10 s) that is
+//! never the expected path; everything is shut down at the end.
 #![allow(unused)]
 use crate::common::*;
 
+#[cfg(not(feature = "framing"))]
 pub fn run(_op: &str, _a: &[&str]) -> Option<String> {
     None
 }
 
-pub fn gen(_rng: &mut Rng, _thorough: bool, _em: &mut Emitter) {}
+#[cfg(not(feature = "framing"))]
+pub fn gen(_rng: &mut Rng, _thorough: bool, _em: &mut Emitter) {
+    eprintln!("group framing: harness built without feature `framing`");
+    std::process::exit(2);
+}
+
+#[cfg(feature = "framing")]
+pub use real::{gen, run};
+
+#[cfg(feature = "framing")]
+mod real {
+    use crate::common::*;
+    use crate::g_snapshot::{make_catalog, Cat};
+    use quandary::io::{BlockingIoConfig, BlockingIoProvider, TokioIoProvider};
+    use quandary::server::{ReceivedInfo, Response, Server, Transport};
+    use quandary::thread::ThreadGroup;
+    use std::io::{Read, Write};
+    use std::net::{IpAddr, Ipv4Addr, Shutdown, SocketAddr, TcpListener, TcpStream, UdpSocket};
+    use std::sync::Arc;
+    use std::time::{Duration, Instant};
+
+    const LONG: Duration = Duration::from_secs(10);
+
+    fn local(port: u16) -> SocketAddr {
+        SocketAddr::new(IpAddr::V4(Ipv4Addr::LOCALHOST), port)
+    }
+
+    /// a port that is free for TCP and UDP right now
+    fn free_port() -> u16 {
+        for _ in 0..200 {
+            let l = TcpListener::bind(local(0)).expect("probe listener");
+            let p = l.local_addr().unwrap().port();
+            if UdpSocket::bind(local(p)).is_ok() {
+                return p;
+            }
+        }
+        panic!("no free port");
+    }
+
+    enum Running {
+        Blocking(Arc<ThreadGroup>),
+        Tokio(std::sync::mpsc::Sender<()>, std::thread::JoinHandle<()>),
+    }
+
+    struct Provider {
+        name: &'static str,
+        port: u16,
+        server: Arc<Server<Cat>>,
+        running: Running,
+    }
+
+    fn new_server(payload: u16) -> Arc<Server<Cat>> {
+        let mut s = Server::new(Arc::new(make_catalog(7)));
+        s.set_edns_udp_payload_size(payload).unwrap();
+        Arc::new(s)
+    }
+
+    fn start_blocking(name: &'static str, workers: usize, linger_ms: u64, udp_workers: usize, payload: u16) -> Provider {
+        let server = new_server(payload);
+        for _ in 0..50 {
+            let port = free_port();
+            let cfg = BlockingIoConfig {
+                tcp_base_workers: workers,
+                tcp_worker_linger: Duration::from_millis(linger_ms),
+                udp_workers_per_socket: udp_workers,
+            };
+            match BlockingIoProvider::bind(cfg, [local(port)], [local(port)]) {
+                Ok(p) => {
+                    let group = ThreadGroup::new();
+                    p.start(&server, &group).expect("start blocking provider");
+                    return Provider { name, port, server, running: Running::Blocking(group) };
+                }
+                Err(_) => continue,
+            }
+        }
+        panic!("cannot bind the blocking provider");
+    }
+
+    fn start_tokio(name: &'static str, payload: u16) -> Provider {
+        let server = new_server(payload);
+        let (ready_tx, ready_rx) = std::sync::mpsc::channel::<Option<u16>>();
+        let (stop_tx, stop_rx) = std::sync::mpsc::channel::<()>();
+        let srv = server.clone();
+        let handle = std::thread::spawn(move || {
+            let rt = tokio_rt::runtime::Builder::new_current_thread().enable_all().build().expect("tokio runtime");
+            rt.block_on(async move {
+                let mut bound = None;
+                for _ in 0..50 {
+                    let port = free_port();
+                    if let Ok(p) = TokioIoProvider::bind([local(port)], [local(port)]).await {
+                        bound = Some((port, p));
+                        break;
+                    }
+                }
+                let Some((port, provider)) = bound else {
+                    let _ = ready_tx.send(None);
+                    return;
+                };
+                let controller = provider.start(&srv);
+                let _ = ready_tx.send(Some(port));
+                // serve until the harness says stop (poll the std channel without blocking the runtime)
+                loop {
+                    tokio_rt::time::sleep(Duration::from_millis(20)).await;
+                    match stop_rx.try_recv() {
+                        Ok(()) | Err(std::sync::mpsc::TryRecvError::Disconnected) => break,
+                        Err(std::sync::mpsc::TryRecvError::Empty) => (),
+                    }
+                }
+                controller.shut_down().await;
+            });
+        });
+        let port = ready_rx.recv_timeout(LONG).ok().flatten().expect("cannot start the tokio provider");
+        Provider { name, port, server, running: Running::Tokio(stop_tx, handle) }
+    }
+
+    fn stop(p: Provider) {
+        match p.running {
+            Running::Blocking(group) => {
+                group.shut_down();
+                group.await_shutdown();
+            }
+            Running::Tokio(tx, h) => {
+                let _ = tx.send(());
+                let _ = h.join();
+            }
+        }
+    }
+
+    // ------------------------------------------------------------------------------------------
+    // requests
+    // ------------------------------------------------------------------------------------------
+
+    fn name_wire(s: &str) -> Vec<u8> {
+        let mut v = Vec::new();
+        for l in s.split('.').filter(|l| !l.is_empty()) {
+            v.push(l.len() as u8);
+            v.extend_from_slice(l.as_bytes());
+        }
+        v.push(0);
+        v
+    }
+
+    fn query(id: u16, qname: &str, qtype: u16, flags: u16) -> Vec<u8> {
+        let mut m = Vec::new();
+        m.extend_from_slice(&id.to_be_bytes());
+        m.extend_from_slice(&flags.to_be_bytes());
+        m.extend_from_slice(&[0, 1, 0, 0, 0, 0, 0, 0]);
+        m.extend_from_slice(&name_wire(qname));
+        m.extend_from_slice(&qtype.to_be_bytes());
+        m.extend_from_slice(&[0, 1]);
+        m
+    }
+
+    /// (request, is it meant to be response-less)
+    fn random_request(rng: &mut Rng, allow_none: bool, thorough: bool) -> Vec<u8> {
+        let names = ["gen.test.", "mail.gen.test.", "alias.gen.test.", "nx.gen.test.", "x.sub.gen.test.", "other.example."];
+        let types = [1u16, 2, 5, 6, 15, 16, 28, 255, 252];
+        let id = rng.next() as u16;
+        match rng.below(20) {
+            0..=11 => query(id, names[rng.below(names.len())], *rng.pick(&types), if rng.chance(1, 4) { 0x0100 } else { 0 }),
+            12 | 13 => {
+                // garbage with QR = 0: always answered (FORMERR or worse), never ignored
+                let n = rng.range(12, 60);
+                let mut m: Vec<u8> = (0..n).map(|_| rng.byte()).collect();
+                m[2] &= 0x7f;
+                m
+            }
+            14 => {
+                // a large frame: several reads
+                let n = if thorough && rng.chance(1, 6) { 65535 } else { rng.range(600, 6000) };
+                let mut m: Vec<u8> = (0..n).map(|_| rng.byte()).collect();
+                m[2] &= 0x7f;
+                m
+            }
+            15 => query(id, names[rng.below(names.len())], 1, 0x2800), // opcode 5: NOTIMP
+            16 | 17 if allow_none => {
+                // response-less: a response (QR = 1), a truncated header, or nothing at all
+                match rng.below(3) {
+                    0 => query(id, names[rng.below(names.len())], 1, 0x8000),
+                    1 => (0..rng.below(12)).map(|_| rng.byte()).collect(),
+                    _ => Vec::new(),
+                }
+            }
+            _ => query(id, names[rng.below(names.len())], *rng.pick(&types), 0),
+        }
+    }
+
+    fn handle(server: &Server<Cat>, req: &[u8], transport: Transport, bufsize: usize) -> Option<Vec<u8>> {
+        let mut out = vec![0u8; bufsize];
+        let info = ReceivedInfo::new(IpAddr::V4(Ipv4Addr::LOCALHOST), transport);
+        match server.handle_message(req, info, &mut out) {
+            Response::Single(n) => Some(out[..n].to_vec()),
+            Response::None => None,
+        }
+    }
+
+    fn frame(m: &[u8]) -> Vec<u8> {
+        let mut v = (m.len() as u16).to_be_bytes().to_vec();
+        v.extend_from_slice(m);
+        v
+    }
+
+    /// the complete frames of a stream (the harness's own splitter, used only to build the table
+    /// and to know how many octets to wait for; the Lean side re-derives the frames itself)
+    fn split_frames(stream: &[u8]) -> Vec<Vec<u8>> {
+        let mut out = Vec::new();
+        let mut i = 0;
+        while i + 2 <= stream.len() {
+            let len = u16::from_be_bytes([stream[i], stream[i + 1]]) as usize;
+            if i + 2 + len > stream.len() {
+                break;
+            }
+            out.push(stream[i + 2..i + 2 + len].to_vec());
+            i += 2 + len;
+        }
+        out
+    }
+
+    // ------------------------------------------------------------------------------------------
+    // one TCP conversation
+    // ------------------------------------------------------------------------------------------
+
+    struct Conv {
+        segments: Vec<Vec<u8>>,
+        delays_ms: Vec<u64>,
+        wait_mode: bool,
+    }
+
+    fn random_conv(rng: &mut Rng, thorough: bool) -> Conv {
+        let n = if rng.chance(1, 10) { rng.range(7, 20) } else { rng.range(1, 6) };
+        let mut stream = Vec::new();
+        let mut ends_with_none = false;
+        let trailing_after_none = rng.chance(1, 5);
+        for i in 0..n {
+            // a response-less request is usually the last one of the conversation
+            let allow_none = rng.chance(1, 5);
+            let req = random_request(rng, allow_none, thorough);
+            stream.extend_from_slice(&frame(&req));
+            let _ = i;
+        }
+        if rng.chance(1, 8) {
+            // the peer stops in the middle of a frame
+            let req = random_request(rng, false, false);
+            let f = frame(&req);
+            let k = rng.range(1, f.len() - 1);
+            stream.extend_from_slice(&f[..k]);
+        }
+        let _ = (ends_with_none, trailing_after_none);
+        // segmentation: cut points anywhere, biased to the neighbourhood of frame boundaries
+        let mut cuts = std::collections::BTreeSet::new();
+        let n_cuts = match rng.below(6) {
+            0 => 0,
+            1 => stream.len().min(40), // many tiny segments
+            _ => rng.range(1, 8),
+        };
+        let mut boundaries = vec![0usize];
+        {
+            let mut i = 0;
+            while i + 2 <= stream.len() {
+                let len = u16::from_be_bytes([stream[i], stream[i + 1]]) as usize;
+                i += 2 + len;
+                if i < stream.len() {
+                    boundaries.push(i);
+                } else {
+                    break;
+                }
+            }
+        }
+        for _ in 0..n_cuts {
+            let c = if rng.chance(1, 2) {
+                let b = *rng.pick(&boundaries) as i64 + rng.range(0, 4) as i64 - 1;
+                b.clamp(1, stream.len() as i64 - 1) as usize
+            } else if stream.len() > 1 {
+                rng.range(1, stream.len() - 1)
+            } else {
+                1
+            };
+            if c > 0 && c < stream.len() {
+                cuts.insert(c);
+            }
+        }
+        let mut segments = Vec::new();
+        let mut prev = 0;
+        for c in cuts {
+            segments.push(stream[prev..c].to_vec());
+            prev = c;
+        }
+        segments.push(stream[prev..].to_vec());
+        let delays_ms = segments.iter().map(|_| if rng.chance(1, 3) { rng.range(1, 3) as u64 } else { 0 }).collect();
+        Conv { segments, delays_ms, wait_mode: rng.chance(1, 12) }
+    }
+
+    /// returns (case line, implementation result)
+    fn run_conv(p: &Provider, conv: &Conv) -> (String, String) {
+        let stream: Vec<u8> = conv.segments.concat();
+        let frames = split_frames(&stream);
+        // Octets that follow a response-less request are written only after everything expected
+        // has been read: the server closes a socket with unread data by a reset, and a reset may
+        // discard responses the client has not read yet (TCP semantics, not the providers').
+        let mut conv = Conv { segments: conv.segments.clone(), delays_ms: conv.delays_ms.clone(), wait_mode: conv.wait_mode };
+        let mut pause_after: Option<usize> = None;
+        {
+            let mut off = 0usize;
+            let mut cut = None;
+            for f in &frames {
+                off += 2 + f.len();
+                if handle(&p.server, f, Transport::Tcp, 65535).is_none() {
+                    cut = Some(off);
+                    break;
+                }
+            }
+            if let Some(cut) = cut {
+                if cut < stream.len() {
+                    let mut segs = Vec::new();
+                    let mut delays = Vec::new();
+                    let mut pos = 0usize;
+                    for (seg, d) in conv.segments.iter().zip(conv.delays_ms.iter()) {
+                        let end = pos + seg.len();
+                        if pos < cut && cut < end {
+                            segs.push(seg[..cut - pos].to_vec());
+                            delays.push(*d);
+                            segs.push(seg[cut - pos..].to_vec());
+                            delays.push(0);
+                        } else {
+                            segs.push(seg.clone());
+                            delays.push(*d);
+                        }
+                        pos = end;
+                    }
+                    let mut acc = 0usize;
+                    for (i, sg) in segs.iter().enumerate() {
+                        acc += sg.len();
+                        if acc == cut {
+                            pause_after = Some(i);
+                            break;
+                        }
+                    }
+                    conv.segments = segs;
+                    conv.delays_ms = delays;
+                }
+            }
+        }
+        let conv = &conv;
+        // the table: real handle_message on each request alone
+        let mut table: Vec<(Vec<u8>, Option<Vec<u8>>)> = Vec::new();
+        let mut expected = Vec::new();
+        let mut closes = false;
+        for f in &frames {
+            let r = handle(&p.server, f, Transport::Tcp, 65535);
+            if !table.iter().any(|(q, _)| q == f) {
+                table.push((f.clone(), r.clone()));
+            }
+            if !closes {
+                match r {
+                    Some(r) => expected.extend_from_slice(&frame(&r)),
+                    None => closes = true,
+                }
+            }
+        }
+        // wait for the close whenever one is expected; else only in sampled conversations
+        let wait_mode = closes || conv.wait_mode;
+        let table_s = if table.is_empty() {
+            "-".to_string()
+        } else {
+            table
+                .iter()
+                .map(|(q, r)| format!("{}={}", hex(q), r.as_ref().map(|r| hex(r)).unwrap_or_else(|| "~".into())))
+                .collect::<Vec<_>>()
+                .join(",")
+        };
+        let case = format!(
+            "tcp {} {} {} {}",
+            p.name,
+            if wait_mode { "w" } else { "h" },
+            conv.segments.iter().map(|s| hex(s)).collect::<Vec<_>>().join("/"),
+            table_s
+        );
+        let result = converse(p.port, conv, expected.len(), wait_mode, pause_after);
+        (case, result)
+    }
+
+    fn drain_nonblocking(s: &mut TcpStream, got: &mut Vec<u8>, eof: &mut bool) {
+        if s.set_nonblocking(true).is_err() {
+            return;
+        }
+        let mut buf = [0u8; 4096];
+        loop {
+            match s.read(&mut buf) {
+                Ok(0) => {
+                    *eof = true;
+                    break;
+                }
+                Ok(n) => got.extend_from_slice(&buf[..n]),
+                Err(_) => break,
+            }
+        }
+        let _ = s.set_nonblocking(false);
+    }
+
+    fn converse(port: u16, conv: &Conv, expect_len: usize, wait_mode: bool, pause_after: Option<usize>) -> String {
+        let mut s = match TcpStream::connect_timeout(&local(port), LONG) {
+            Ok(s) => s,
+            Err(e) => return format!("err:connect:{:?}", e.kind()),
+        };
+        let _ = s.set_nodelay(true);
+        let mut got = Vec::new();
+        let mut eof = false;
+        let mut buf = [0u8; 8192];
+        for (i, (seg, d)) in conv.segments.iter().zip(conv.delays_ms.iter()).enumerate() {
+            if *d > 0 {
+                std::thread::sleep(Duration::from_millis(*d));
+            }
+            if s.write_all(seg).is_err() {
+                break; // the server has closed: nothing more can be delivered
+            }
+            drain_nonblocking(&mut s, &mut got, &mut eof);
+            if eof {
+                break;
+            }
+            if pause_after == Some(i) {
+                // read everything that is expected before writing what follows the response-less request
+                let _ = s.set_read_timeout(Some(LONG));
+                while !eof && got.len() < expect_len {
+                    match s.read(&mut buf) {
+                        Ok(0) => eof = true,
+                        Ok(n) => got.extend_from_slice(&buf[..n]),
+                        Err(e) if e.kind() == std::io::ErrorKind::Interrupted => (),
+                        Err(e) if matches!(e.kind(), std::io::ErrorKind::WouldBlock | std::io::ErrorKind::TimedOut) => {
+                            return format!("err:timeout-after-{}-octets", got.len())
+                        }
+                        Err(_) => eof = true,
+                    }
+                }
+                if eof {
+                    break;
+                }
+            }
+        }
+        let start = Instant::now();
+        let mut state = "-";
+        if wait_mode {
+            // wait for the server to close; once everything expected has arrived give it 250 ms
+            // more before declaring the connection open
+            let mut quiet_deadline: Option<Instant> = None;
+            while !eof {
+                if got.len() >= expect_len && quiet_deadline.is_none() {
+                    quiet_deadline = Some(Instant::now() + Duration::from_millis(250));
+                }
+                let timeout = match quiet_deadline {
+                    Some(d) => match d.checked_duration_since(Instant::now()) {
+                        Some(t) if !t.is_zero() => t,
+                        _ => break,
+                    },
+                    None => LONG,
+                };
+                let _ = s.set_read_timeout(Some(timeout));
+                match s.read(&mut buf) {
+                    Ok(0) => eof = true,
+                    Ok(n) => {
+                        got.extend_from_slice(&buf[..n]);
+                        quiet_deadline = None;
+                    }
+                    Err(e) if matches!(e.kind(), std::io::ErrorKind::WouldBlock | std::io::ErrorKind::TimedOut) => {
+                        if quiet_deadline.is_some() {
+                            break;
+                        }
+                        return format!("err:timeout-after-{}-octets", got.len());
+                    }
+                    Err(e) if e.kind() == std::io::ErrorKind::Interrupted => (),
+                    Err(_) => eof = true, // reset by the server: it has closed
+                }
+                if start.elapsed() > LONG * 2 {
+                    return "err:timeout".into();
+                }
+            }
+            state = if eof { "closed" } else { "open" };
+            let _ = s.shutdown(Shutdown::Both);
+        } else {
+            let _ = s.set_read_timeout(Some(LONG));
+            while !eof && got.len() < expect_len {
+                match s.read(&mut buf) {
+                    Ok(0) => eof = true,
+                    Ok(n) => got.extend_from_slice(&buf[..n]),
+                    Err(e) if e.kind() == std::io::ErrorKind::Interrupted => (),
+                    Err(e) if matches!(e.kind(), std::io::ErrorKind::WouldBlock | std::io::ErrorKind::TimedOut) => {
+                        return format!("err:timeout-after-{}-octets", got.len())
+                    }
+                    Err(_) => eof = true,
+                }
+            }
+            // half-close: the server sees the peer closing and must not send anything more
+            let _ = s.shutdown(Shutdown::Write);
+            while !eof {
+                match s.read(&mut buf) {
+                    Ok(0) => eof = true,
+                    Ok(n) => got.extend_from_slice(&buf[..n]),
+                    Err(e) if e.kind() == std::io::ErrorKind::Interrupted => (),
+                    Err(e) if matches!(e.kind(), std::io::ErrorKind::WouldBlock | std::io::ErrorKind::TimedOut) => {
+                        return format!("err:no-close-after-{}-octets", got.len())
+                    }
+                    Err(_) => eof = true,
+                }
+            }
+        }
+        format!("ok {} {}", hex(&got), state)
+    }
+
+    // ------------------------------------------------------------------------------------------
+    // one UDP datagram
+    // ------------------------------------------------------------------------------------------
+
+    fn run_udp(p: &Provider, rng: &mut Rng, thorough: bool) -> (String, String) {
+        let payload = p.server.edns_udp_payload_size() as usize;
+        let allow_none = rng.chance(1, 4);
+        let mut req = random_request(rng, allow_none, false);
+        if rng.chance(1, 15) {
+            // larger than the receive buffer: the provider sees the first `payload` octets
+            req = (0..payload + rng.range(1, 400)).map(|_| rng.byte()).collect();
+            req[2] &= 0x7f;
+        }
+        if req.is_empty() {
+            req = vec![0u8; 3];
+        }
+        let seen: &[u8] = if req.len() > payload { &req[..payload] } else { &req };
+        let expected = handle(&p.server, seen, Transport::Udp, payload);
+        let case = format!(
+            "udp {} {} {} {}",
+            p.name,
+            payload,
+            hex(&req),
+            expected.as_ref().map(|r| hex(r)).unwrap_or_else(|| "~".into())
+        );
+        let sock = match UdpSocket::bind(local(0)) {
+            Ok(s) => s,
+            Err(_) => return (case, "err:bind".into()),
+        };
+        let server_addr = local(p.port);
+        if sock.send_to(&req, server_addr).is_err() {
+            return (case, "err:send".into());
+        }
+        let mut buf = vec![0u8; 70000];
+        let mut responses: Vec<Vec<u8>> = Vec::new();
+        // first response: generous bound when one is expected, short when none is
+        let first_wait = if expected.is_some() { LONG } else { Duration::from_millis(120) };
+        let _ = sock.set_read_timeout(Some(first_wait));
+        let mut wrong_source = false;
+        if let Ok((n, from)) = sock.recv_from(&mut buf) {
+            if from != server_addr {
+                wrong_source = true;
+            }
+            responses.push(buf[..n].to_vec());
+            // a second datagram would violate "at most one": look for it in sampled cases
+            if thorough || rng.chance(1, 6) {
+                let _ = sock.set_read_timeout(Some(Duration::from_millis(60)));
+                if let Ok((n, _)) = sock.recv_from(&mut buf) {
+                    responses.push(buf[..n].to_vec());
+                }
+            }
+        }
+        let r = if wrong_source {
+            "err:wrong-source".to_string()
+        } else if responses.iter().any(|r| r.len() > payload) {
+            format!("err:oversize-{}", responses.iter().map(|r| r.len()).max().unwrap())
+        } else {
+            format!("ok {} {}", responses.len(), responses.first().map(|r| hex(r)).unwrap_or_else(|| "-".into()))
+        };
+        (case, r)
+    }
+
+    pub fn run(op: &str, a: &[&str]) -> Option<String> {
+        // a conversation is re-run against a freshly started provider of the recorded kind
+        match op {
+            "tcp" if a.len() == 4 => {
+                let p = start_named(a[0])?;
+                let segments: Vec<Vec<u8>> = if a[2] == "-" { vec![] } else { a[2].split('/').map(|x| unhex(x)).collect::<Option<_>>()? };
+                let conv = Conv { delays_ms: segments.iter().map(|_| 1).collect(), segments, wait_mode: a[1] == "w" };
+                let (_, r) = run_conv(&p, &conv);
+                stop(p);
+                Some(r)
+            }
+            "udp" if a.len() == 4 => {
+                let p = start_named(a[0])?;
+                let req = unhex(a[2])?;
+                let sock = UdpSocket::bind(local(0)).ok()?;
+                let _ = sock.send_to(&req, local(p.port));
+                let _ = sock.set_read_timeout(Some(if a[3] == "~" { Duration::from_millis(300) } else { LONG }));
+                let mut buf = vec![0u8; 70000];
+                let r = match sock.recv_from(&mut buf) {
+                    Ok((n, from)) if from == local(p.port) => {
+                        let first = hex(&buf[..n]);
+                        let _ = sock.set_read_timeout(Some(Duration::from_millis(150)));
+                        let more = if sock.recv_from(&mut buf).is_ok() { 2 } else { 1 };
+                        format!("ok {more} {first}")
+                    }
+                    Ok(_) => "err:wrong-source".into(),
+                    Err(_) => "ok 0 -".into(),
+                };
+                stop(p);
+                Some(r)
+            }
+            _ => None,
+        }
+    }
+
+    fn start_named(name: &str) -> Option<Provider> {
+        Some(match name {
+            "b2" => start_blocking("b2", 2, 50, 2, 1232),
+            "b0" => start_blocking("b0", 0, 0, 1, 512),
+            "b1" => start_blocking("b1", 1, 200, 1, 900),
+            "tk" => start_tokio("tk", 1232),
+            _ => return None,
+        })
+    }
+
+    pub fn gen(rng: &mut Rng, thorough: bool, em: &mut Emitter) {
+        let t0 = Instant::now();
+        let providers: Vec<Provider> = ["b2", "b0", "b1", "tk"].iter().map(|n| start_named(n).unwrap()).collect();
+        let providers = Arc::new(providers);
+        let n_threads = 8;
+        let per_thread = if thorough { 1500 } else { 150 };
+        let udp_per_thread = if thorough { 500 } else { 60 };
+        let mut handles = Vec::new();
+        for t in 0..n_threads {
+            let providers = providers.clone();
+            let seed = rng.next();
+            handles.push(std::thread::spawn(move || {
+                let mut rng = Rng::new(seed ^ t as u64);
+                let mut out = Vec::new();
+                for i in 0..per_thread {
+                    let p = &providers[(i + t) % providers.len()];
+                    let conv = random_conv(&mut rng, thorough);
+                    out.push(run_conv(p, &conv));
+                }
+                for i in 0..udp_per_thread {
+                    let p = &providers[(i + t) % providers.len()];
+                    out.push(run_udp(p, &mut rng, thorough));
+                }
+                out
+            }));
+        }
+        for h in handles {
+            for (case, r) in h.join().expect("client thread panicked") {
+                em.emit(&case, &r);
+            }
+        }
+        let providers = Arc::try_unwrap(providers).ok().expect("providers still shared");
+        for p in providers {
+            stop(p);
+        }
+        eprintln!("framing: {} cases, {:.1} s", em.n, t0.elapsed().as_secs_f64());
+    }
+}
